@@ -1,7 +1,8 @@
 import Snowflake.Base.IP
 /-!
 Model of `common/util/util.go`: `IsLocal` (arithmetic / interval form) and the candidate filter of
-`StripLocalAddresses` (C08).  Core-only, executable.
+`StripLocalAddresses` (C08), and its application to the description that leaves the process
+(`leaves`).  Core-only, executable.
 
 pion's SDP parser / marshaller and `ice.UnmarshalCandidate` are **not** modelled: what they report about
 an attribute enters through the parameter `view : α → CandInfo` (trusted base).
@@ -78,5 +79,25 @@ structure Sdp (α μ σ : Type) where
 /-- the loop over `desc.MediaDescriptions` -/
 def stripSdp {α μ σ : Type} (view : α → CandInfo) (d : Sdp α μ σ) : Sdp α μ σ :=
   { d with media := d.media.map fun m => { m with attrs := strip view m.attrs } }
+
+/-- A session description as `Negotiate` / `sendAnswer` see it: `webrtc.SessionDescription{Type, SDP}`
+with the SDP text in parsed form. -/
+structure Desc (τ α μ σ : Type) where
+  type : τ
+  sdp : Sdp α μ σ
+
+/-- **What leaves the process** (C08, last clause).  Both `(*BrokerChannel).Negotiate`
+(client/lib/rendezvous.go) and `(*SignalingServer).sendAnswer` (proxy/lib/snowflake.go) do, before the
+description is serialised into the poll / answer request:
+```go
+if !x.keepLocalAddresses {
+    d = &webrtc.SessionDescription{Type: d.Type, SDP: util.StripLocalAddresses(d.SDP)}
+}
+… util.SerializeSessionDescription(d) …
+```
+There is no other branch: in particular no fall-back to the unstripped description when stripping
+leaves no candidate at all. -/
+def leaves {τ α μ σ : Type} (view : α → CandInfo) (keep : Bool) (d : Desc τ α μ σ) : Desc τ α μ σ :=
+  if !keep then { type := d.type, sdp := stripSdp view d.sdp } else d
 
 end Snowflake.Util
